@@ -73,7 +73,7 @@ pub fn run(args: &[String]) {
             if matches!(op.as_str(), "promote") {
                 std::fs::File::create(rdir.join("thekey")).unwrap().write_all(VALUE).unwrap();
             }
-            if matches!(op.as_str(), "putexisting" | "setexisting") {
+            if matches!(op.as_str(), "putexisting" | "setexisting" | "gethit" | "touchhit" | "ensurehit") {
                 let v = stage(&stage_dir, "pre");
                 cache.set(key, &v).unwrap();
             }
@@ -88,7 +88,10 @@ pub fn run(args: &[String]) {
             let r: std::io::Result<()> = match op.as_str() {
                 "set" | "setexisting" => cache.set(key, &src),
                 "put" | "putexisting" => cache.put(key, &src),
-                "ensure" | "promote" => cache.ensure(key, |dst| dst.write_all(VALUE)).map(|_| ()),
+                "ensure" | "promote" | "ensurehit" => cache.ensure(key, |dst| dst.write_all(VALUE)).map(|_| ()),
+                "prune" => kismet_cache::raw_cache::prune(wdir.clone(), 2).map(|_| ()),
+                "gethit" => cache.get(key).map(|_| ()),
+                "touchhit" => cache.touch(key).map(|_| ()),
                 "replace" => cache
                     .get_or_update(key, |_h: CacheHit| CacheHitAction::Replace, |dst, _old| dst.write_all(VALUE))
                     .map(|_| ()),
